@@ -73,6 +73,7 @@ type viewTrack struct {
 	dupWatch          bool // two watch streams on the range were open at the same time
 	deliveries        int
 	lastDelivery      time.Time
+	toldRev           int64 // store revision up to which the registry has been told about the range (snapshot or delivered events)
 	valsOfKey         map[string]map[string]bool // every value ever delivered (event or snapshot) per key
 }
 
@@ -125,6 +126,7 @@ type store struct {
 
 	views   map[string]*viewTrack      // range key ("svc/") -> what the registry was told
 	ever    map[string]map[string]bool // prefix ("svc/") -> values ever registered under it
+	modRev  map[string]int64           // prefix -> revision of the last put/delete under it
 	lastPut map[string]map[string]string
 	prefixs []string
 
@@ -133,7 +135,7 @@ type store struct {
 
 func newStore(r *simrt.Run, prefixes []string) *store {
 	s := &store{r: r, t: r.Tape, rev: 1, kvs: map[string]*kvEntry{}, leases: map[int64]*lease{}, nextLease: 7000,
-		views: map[string]*viewTrack{}, ever: map[string]map[string]bool{}, lastPut: map[string]map[string]string{}, prefixs: prefixes}
+		views: map[string]*viewTrack{}, ever: map[string]map[string]bool{}, modRev: map[string]int64{}, lastPut: map[string]map[string]string{}, prefixs: prefixes}
 	for _, p := range prefixes {
 		s.ever[p] = map[string]bool{}
 		s.lastPut[p] = map[string]string{}
@@ -199,6 +201,7 @@ func (s *store) put(key, val string, leaseID int64) error {
 	if p := s.prefixOf(key); p != "" {
 		s.ever[p][val] = true
 		s.lastPut[p][val] = key
+		s.modRev[p] = s.rev
 	}
 	if s.r.Tracing() {
 		s.r.Logf("etcd rev %d: PUT %s=%s lease=%d", s.rev, key, val, leaseID)
@@ -230,6 +233,9 @@ func (s *store) deleteKeys(keys []string, why string) int {
 		}
 		delete(s.kvs, k)
 		s.hist = append(s.hist, histEv{rev: s.rev, del: true, key: k})
+		if p := s.prefixOf(k); p != "" {
+			s.modRev[p] = s.rev
+		}
 		if s.r.Tracing() {
 			s.r.Logf("etcd rev %d: DELETE %s (%s)", s.rev, k, why)
 		}
@@ -337,6 +343,9 @@ func (s *store) noteSnapshot(rangeKey string, kvs []*mvccpb.KeyValue) {
 	v := s.view(rangeKey)
 	v.snapshots++
 	v.lastSnapshot = time.Now()
+	if s.rev > v.toldRev {
+		v.toldRev = s.rev
+	}
 	if v.snapshots == 1 {
 		// the range's first snapshot: was anything registered under it before?
 		v.firstSnapBlank = len(s.ever[rangeKey]) == 0
@@ -369,6 +378,9 @@ func (s *store) noteDelivered(rangeKey string, evs []*clientv3.Event) {
 	v.deliveries++
 	v.lastDelivery = time.Now()
 	for _, ev := range evs {
+		if ev.Kv.ModRevision > v.toldRev {
+			v.toldRev = ev.Kv.ModRevision
+		}
 		k := string(ev.Kv.Key)
 		if ev.Type == clientv3.EventTypePut {
 			v.noteVal(k, string(ev.Kv.Value))
